@@ -74,7 +74,7 @@ func main() {
 		Post: func(c *ev.Check, outs []*run.Outcome) {
 			for k, min := range map[string]int64{
 				"wire.datagrams": 100, "wire.slots_with_acted_datagram": 50, "wire.restarts": 5, "wire.dup_new_slot_one_report": 3, "wire.versions_with_conflict": 10,
-				"wire.probe_congruent": 1, "wire.probe_row_patterns": 1, "wire.wide_slots_resent": 5, "store.save_accepted_below_2^21": 100, "store.round_distance_ops": 10, "history.checks": 50, "history.cells_checked": 100, "history.conflicting_rewrite_kept_first": 3,
+				"wire.probe_congruent": 1, "wire.probe_row_patterns": 1, "wire.probe_log_replaced": 1, "wire.probe_torn_tail": 1, "wire.wide_slots_resent": 5, "store.save_accepted_below_2^21": 100, "store.round_distance_ops": 10, "history.checks": 50, "history.cells_checked": 100, "history.conflicting_rewrite_kept_first": 3,
 				"store.save_accepted": 100, "store.save_refused_occupied": 100, "store.save_refused_before_origin": 10, "store.save_noop_equal": 20, "store.zero_on_empty": 10,
 				"store.load": 100, "store.far_saves": 10, "store.wrap_zone_ops": 10, "store.full_checks": 5, "store.restarts": 1, "store.origin_minus_one": 1,
 				"conc.loads_on_stored": 10000, "conc.goroutines": 8, "conc.saves_accepted": 100, "conc.saves_refused_occupied": 1000,
@@ -197,6 +197,8 @@ type scen struct {
 	hist     []uint32
 	log      []string // what was done, for the replay
 	dead     bool
+
+	tornByHarness bool
 }
 
 func (s *scen) content() string {
@@ -400,7 +402,7 @@ func (s *scen) checkHistory() {
 		r.Violationf("history-header-changed", s.replay(), "history.dat header is %x, origin was %d", data[:min(4, len(data))], s.origin)
 		return
 	}
-	if len(data)%4 != 0 {
+	if len(data)%4 != 0 && !s.tornByHarness { // the torn-tail probe left such a tail itself; whole cells are judged as always
 		r.Violationf("history-file-unaligned", s.replay(), "history.dat has %d bytes", len(data))
 	}
 	n := (len(data) - 4) / 4
@@ -661,6 +663,73 @@ func (s *scen) runProbe(kind string) {
 	case "congruent-across-reads":
 		// the same class, but the second value arrives in a later version: nothing may be re-sent
 		a, b = "5000", ""
+	case "log-replaced", "torn-tail":
+		// Multi-life histories of the files around the history. Readings are reported, then
+		//  log-replaced: while the device is down the meter's log is replaced by an older, much
+		//    shorter one (its newest row lies 300-500 slots before the newest reported reading); in
+		//    the next life the rows come back, the far ones with other values;
+		//  torn-tail: while the device is down history.dat gets a torn tail (1-3 zero bytes, as an
+		//    append cut by a power loss leaves them); the next life reports new readings; after an
+		//    ordinary restart during which those rows changed their values nothing may be re-signed.
+		for i := int64(0); i < 3; i++ {
+			s.lines = append(s.lines, line{slot: sl + i, off: int64(rng.Intn(300)), val: fmt.Sprint(500 + rng.Intn(400))})
+		}
+		if !s.publish("probe "+kind+": first readings") || !s.settle() {
+			return
+		}
+		far := sl + 300 + int64(rng.Intn(200))
+		nearRows := len(s.lines)
+		for i := int64(0); i < 3; i++ {
+			s.lines = append(s.lines, line{slot: far + i, off: int64(rng.Intn(300)), val: fmt.Sprint(1500 + rng.Intn(400))})
+		}
+		if !s.publish("readings 300-500 slots later") || !s.settle() {
+			return
+		}
+		s.stop()
+		s.r.Count("wire.restarts", 1)
+		if kind == "log-replaced" {
+			s.r.Count("wire.probe_log_replaced", 1)
+			saved := append([]line(nil), s.lines...)
+			s.lines = s.lines[:nearRows]
+			if !s.publish("while down: the log is replaced by an older, shorter one") || !s.start() || !s.settle() {
+				return
+			}
+			s.lines = saved
+			for i := nearRows; i < len(s.lines); i++ {
+				s.lines[i].val = s.otherVal(s.lines[i].val)
+			}
+			if !s.publish("the later rows come back with other values") || !s.settle() {
+				return
+			}
+			return
+		}
+		s.r.Count("wire.probe_torn_tail", 1)
+		hp := filepath.Join(s.env.Dir, client.HistoryFile)
+		if f, err := os.OpenFile(hp, os.O_WRONLY|os.O_APPEND, 0644); err == nil {
+			f.Write(make([]byte, 1+rng.Intn(3)))
+			f.Close()
+		}
+		s.tornByHarness = true
+		s.log = append(s.log, "while down: history.dat gets a torn tail of zero bytes")
+		if !s.start() || !s.settle() {
+			return
+		}
+		life2 := len(s.lines)
+		for i := int64(0); i < 3; i++ { // the slot of the torn cell (far+3) gets no row
+			s.lines = append(s.lines, line{slot: far + 5 + i, off: int64(rng.Intn(300)), val: fmt.Sprint(2500 + rng.Intn(400))})
+		}
+		if !s.publish("new readings in the life that found the torn tail") || !s.settle() {
+			return
+		}
+		s.stop()
+		s.r.Count("wire.restarts", 1)
+		for i := life2; i < len(s.lines); i++ {
+			s.lines[i].val = s.otherVal(s.lines[i].val)
+		}
+		if !s.publish("while down: those rows change their values") || !s.start() || !s.settle() {
+			return
+		}
+		return
 	case "row-patterns":
 		// one pass sees, for one new slot each, A,B,B / A,B,B,A / A,A,B,B
 		s.r.Count("wire.probe_row_patterns", 1)
@@ -869,7 +938,7 @@ func wireChild(b run.Batch, r *ev.Result) {
 		return
 	}
 	defer rogue.Close()
-	kinds := []string{"congruent", "zeroalias", "congruent-across-reads", "row-patterns"}
+	kinds := []string{"congruent", "zeroalias", "congruent-across-reads", "row-patterns", "log-replaced", "torn-tail"}
 	for i := 0; i < n+len(kinds) && r.NumViolations() < 30; i++ {
 		kind := "random"
 		if i < len(kinds) {
